@@ -52,6 +52,8 @@ func (c *OCSPRevocationChecker) IsRevoked(clientCertificate *x509.Certificate, v
 	chains := core.NewCertificateChains(verifiedChains, c.ocspConfig.TrustedResponderCerts)
 	//TODO Support AIA via clientCertificate.IssuingCertificateURL
 	certCandidates, err := core.FindCertificateIssuerCandidates(issuer, &clientCertificate.Extensions, issuerKeyAlgorithm(clientCertificate), chains)
+	//a candidate found by name or identifier only counts as issuer if it really signed the certificate
+	certCandidates = filterIssuersOfCertificate(clientCertificate, certCandidates)
 	ocspServerList := c.filterHTTPOCSPServers(clientCertificate.OCSPServer)
 	var output []byte = nil
 	for _, ocspServer := range ocspServerList {
@@ -116,6 +118,20 @@ func issuerKeyAlgorithm(certificate *x509.Certificate) x509.PublicKeyAlgorithm {
 		return x509.DSA
 	}
 	return x509.UnknownPublicKeyAlgorithm
+}
+
+// filterIssuersOfCertificate keeps the candidates whose key verifies the signature of the certificate.
+// Several certificates can carry the name (or key identifier) the certificate names as its issuer,
+// e.g. another CA with the same name in the trusted responder certs
+func filterIssuersOfCertificate(certificate *x509.Certificate, candidates []*core.CertificateChainEntry) []*core.CertificateChainEntry {
+	issuers := make([]*core.CertificateChainEntry, 0, len(candidates))
+	for _, candidate := range candidates {
+		err := candidate.Certificate.CheckSignature(certificate.SignatureAlgorithm, certificate.RawTBSCertificate, certificate.Signature)
+		if err == nil {
+			issuers = append(issuers, candidate)
+		}
+	}
+	return issuers
 }
 
 func (c *OCSPRevocationChecker) calculateEvictionTime(response *ocsp.Response) time.Duration {
